@@ -227,3 +227,17 @@ def strip_vals(tpl):
             return strip_vals(tpl[1])
         return tuple(strip_vals(x) for x in tpl)
     return tpl
+
+
+_MIRROR = {ast.Lt: ast.Gt, ast.Gt: ast.Lt, ast.LtE: ast.GtE, ast.GtE: ast.LtE, ast.Eq: ast.Eq, ast.NotEq: ast.NotEq}
+
+
+def cmp_forms(c):
+    """A single comparison and its mirror image as (left, op class, right) triples (a < b  ==  b > a)."""
+    if not (isinstance(c, ast.Compare) and len(c.ops) == 1):
+        return []
+    op = type(c.ops[0])
+    out = [(c.left, op, c.comparators[0])]
+    if op in _MIRROR:
+        out.append((c.comparators[0], _MIRROR[op], c.left))
+    return out
